@@ -75,6 +75,12 @@ CFGS = [
     {"spatialGridSize": 40, "momentumGridSize": 5, "errTol": 1e-3, "pressRelErrTol": 0.05, "maxIterations": 20},
     {"spatialGridSize": 24, "momentumGridSize": 5, "errTol": 1e-3, "pressRelErrTol": 0.1, "maxIterations": 20,
      "conserveEnergyMomentum": False},
+    # user-narrowed bounds on the wall thickness (in units of 1/Tn): solutions that sit on a bound
+    # must be labelled as errors, not returned as converged
+    {"spatialGridSize": 30, "momentumGridSize": 5, "errTol": 1e-3, "pressRelErrTol": 0.1, "maxIterations": 20,
+     "wallThicknessBounds": [0.1, 4.0]},
+    {"spatialGridSize": 30, "momentumGridSize": 5, "errTol": 1e-3, "pressRelErrTol": 0.1, "maxIterations": 20,
+     "wallThicknessBounds": [4.2, 100.0]},
 ]
 SETTINGS = [
     {"offEq": False, "mfp": 50.0, "thick": 5.0},
@@ -202,6 +208,21 @@ def check_solution(v, manager, cf, rel, r, settings, cls, first_time):
     if not r.success:
         v.label("outcome:error")
         return
+    # a successful result never sits on a configured bound of the wall parameters (the solver documents
+    # that as "saturates the given bounds ... probably inaccurate" => ERROR)
+    if r.solutionType in (ESolutionType.DEFLAGRATION, ESolutionType.DETONATION) and hasattr(r, "wallWidths"):
+        v.checked("bounds-saturation")
+        tb = np.array(manager.config.configEOM.wallThicknessBounds, dtype=float) / hyd.Tnucl
+        ob = np.array(manager.config.configEOM.wallOffsetBounds, dtype=float)
+        w_ = np.asarray(r.wallWidths, dtype=float)
+        o_ = np.asarray(r.wallOffsets, dtype=float)
+        on_w = [b for b in tb if np.any(np.abs(w_ - b) <= 1e-7 * b)]
+        on_o = [b for b in ob if np.any(np.abs(o_[1:] - b) <= 1e-7 * abs(b))]
+        if on_w or on_o:
+            side = "upper" if (on_w and on_w[0] == tb[1]) or (on_o and on_o[0] == ob[1]) else "lower"
+            v.fail("bounds-saturation", f"{side} bound",
+                   f"success=True although a wall parameter sits on a configured bound: widths*Tn={w_ * hyd.Tnucl}, "
+                   f"offsets={o_}, thickness bounds={tb * hyd.Tnucl}, offset bounds={ob}")
     if not first_time:
         return
     vmin = hyd.vMin
